@@ -26,6 +26,7 @@ from .. import handler_bind as hb
 from ..policy import generic_variant
 
 NONE = "__none__"
+XSI = "http://www.w3.org/2001/XMLSchema-instance"
 
 
 @dataclass
@@ -139,13 +140,25 @@ def f18_image(src, r):
     is a different defect and is reported)."""
     attrs = []
     for (name, v), (rn, rv) in zip(src["attrs"], r["attrs"]):
-        attrs.append([rn, f"{{{v['u']}}}{v['l']}" if "s" not in v and v["u"] != NONE else rv])
+        attrs.append([rn, f"{{{v['u']}}}{v['l']}" if "s" not in v and v["u"] != NONE and tuple(name) != (XSI, "type") else rv])
     return {**r, "attrs": attrs, "kids": [f18_image(a, b) for a, b in zip(src["kids"], r["kids"])]}
+
+
+def xcanon(el, **kw):
+    """infoset.canon with every xsi:type value in the VALUE space: Q(uri|local) when its prefix resolves, the raw
+    text otherwise (a value written as a literal {uri}local does not resolve and stays visible)."""
+    for e in infoset.elements(el):
+        v = e["attrs"].get((XSI, "type"))
+        if v is not None:
+            r = infoset.resolve_qname(v.strip(), e["nsmap"])
+            if r and r[0]:
+                e["attrs"][(XSI, "type")] = f"Q({r[0]}|{r[1]})"
+    return infoset.canon(el, **kw)
 
 
 def spec_any(p) -> AnyElement:
     return AnyElement(qname=rb.clark(p["qname"]), text=p["text"], tail=None if p["tail"] == NONE else p["tail"],
-                      attributes={rb.clark(n): v for n, v in p["attrs"]}, children=[spec_any(k) for k in p["children"]])
+                      attributes={rb.clark(n): v for n, v, *_w in p["attrs"]}, children=[spec_any(k) for k in p["children"]])
 
 
 def find_el(tree, name):
@@ -196,7 +209,7 @@ def check_tree(ctx, case, placements):
             for w in ("native", "lxml"):
                 try:
                     out = rb.render(obj, xctx, w)
-                    got = infoset.canon(find_el(infoset.parse(out), src["name"]), strip_ws_between_children=False)
+                    got = xcanon(find_el(infoset.parse(out), src["name"]), strip_ws_between_children=False)
                 except Exception as ex:  # noqa: BLE001
                     ctx.violation(f"serialising the captured tree ({pname}, {w}) failed: {type(ex).__name__}: {ex}", info)
                     continue
@@ -235,7 +248,7 @@ def check_siblings(ctx, case):
                 try:
                     out = rb.render(obj, xctx, "native")
                     root = infoset.parse(out)
-                    got = [infoset.canon(c, strip_ws_between_children=False) for c in root["content"] if isinstance(c, dict)]
+                    got = [xcanon(c, strip_ws_between_children=False) for c in root["content"] if isinstance(c, dict)]
                 except Exception as ex:  # noqa: BLE001
                     ctx.violation(f"serialising two captured elements ({pname}) failed: {type(ex).__name__}: {ex}", info)
                     continue
